@@ -59,7 +59,7 @@ EXHAUSTIVE = {"quick": False, "thorough": False}
 
 def plan(tier, seed):
     specs = []
-    nrand = 1500 if tier == "quick" else 12000
+    nrand = 1500 if tier == "quick" else 60000
     for i in range(nrand):
         specs.append({"kind": "rand", "ndim": 1 + i % 3, "depth": 15 if i % 10 else 40})
     depth = 2 if tier == "quick" else 3
